@@ -27,6 +27,8 @@ MARK = "--GENERATED--"
 
 _GRID = "deepali/core/grid.py"
 _IMG = "deepali/core/image.py"
+_LF = "deepali/losses/functional.py"
+_FL = "deepali/core/flow.py"
 _RN_GRID = {"self._size": "n", "num_[::2]": "lo", "num_[1::2]": "hi"}
 _RN_ROI_G = {"start[i]": "start", "size[i]": "size", "grid_size[i]": "m"}
 _RN_ROI_T = {"start[i]": "start", "size[i]": "size", "data.shape[data.ndim - 1 - i]": "m"}
@@ -105,6 +107,30 @@ REGISTRY: Dict[str, List[Tuple[Frag, str]]] = {
                    **({"trace": "real"} if nm == "trace_positive_cond" else {})),
               lets=("sq", "qw", "qx", "qy", "qz"), result="return", sqrt=True, funcs=("safe_zero_division",)), "real")
         for nm in ("trace_positive_cond", "cond_1", "cond_2", "cond_3")
+    ],
+    "C11": [
+        (Frag("expv_sign", _FL, "expv", "block", {"scale": "real", "inverse": "bool"}, tests=("inverse",), outs=("scale",)), "real"),
+        (Frag("expv_init", _FL, "expv", "assign", {"flow": "real", "scale": "real", "steps": "nat"}, target="disp", occ=(0, 0)), "real"),
+        (Frag("expv_step", _FL, "expv", "assign", {"disp": "real", "w": "real"}, target="disp", occ=(1, 1),
+              rename={"warp_image(disp, grid, flow=move_dim(disp, 1, -1), mode=sampling, padding=padding, align_corners=align_corners)": "w"}), "real"),
+        (Frag("warp_pos", _FL, "warp_image", "assign", {"grid": "real", "flow": "real"}, target="grid", occ=(1, 1)), "real"),
+    ],
+    "C13": [
+        (Frag("compose_pos", _FL, "compose_flows", "assign", {"x": "real", "u": "real"}, target="x", occ=(1, 1), idfuncs=("move_dim", "unsqueeze")), "real"),
+        (Frag("compose_sum", _FL, "compose_flows", "lets", {"u": "real", "v": "real"}, lets=(), result="=return"), "real"),
+    ],
+    "C16": [
+        (Frag("ncc_score", _LF, "ncc_loss", "assign", {k: "real" for k in ("a", "b", "c", "epsilon")}, target="loss", occ=(0, 0)), "real"),
+        (Frag("lcc_score", _LF, "lcc_loss", "assign", {k: "real" for k in ("a", "b", "c", "epsilon")}, target="loss", occ=(0, 0)), "real"),
+        (Frag("wlcc_score", _LF, "wlcc_loss", "assign", {k: "real" for k in ("a", "b", "c", "epsilon")}, target="loss", occ=(0, 0)), "real"),
+        (Frag("dice_entry", _LF, "dice_score", "lets", {k: "real" for k in ("pt", "pp", "tt", "epsilon")},
+              lets=("intersection", "denominator", "loss"), result="=loss",
+              rename={"dot_channels(y_pred, y, weight=weight)": "pt", "dot_channels(y_pred, y_pred, weight=weight)": "pp",
+                      "dot_channels(y, y, weight=weight)": "tt"}), "real"),
+        (Frag("tversky_entry", _LF, "tversky_index", "lets", {k: "real" for k in ("tp", "fp", "fn", "alpha", "beta", "epsilon")},
+              lets=("intersection", "fps", "fns", "numerator", "denominator", "loss"), result="=loss",
+              rename={"dot_channels(y_pred, y, weight=weight)": "tp", "dot_channels(y_pred, 1 - y, weight=weight)": "fp",
+                      "dot_channels(1 - y_pred, y, weight=weight)": "fn"}), "real"),
     ],
     "C17": [
         (Frag("lame_table", "deepali/losses/functional.py", "lame_parameters", "block",
